@@ -179,7 +179,7 @@ class Ctx:
         key = ('h', path, tuple(sorted(defs.items())), tag)
         def build():
             h = hashlib.md5(repr(key).encode()).hexdigest()[:12]
-            out = os.path.join(self.work, f'h_{h}.o')
+            out = os.path.join(self.work, f'h_{h}_{os.getpid()}.o')
             cmd = ['goto-cc', '-c'] + self.cflags() + [f'-D{k}={v}' for k, v in defs.items()] + [path, '-o', out]
             rc, o, e, _ = sh(cmd, timeout=300)
             if rc != 0: raise BuildError(f'goto-cc {path} failed:\n{e[-3000:]}')
@@ -195,7 +195,7 @@ class Ctx:
         for tu in ob.tus:
             objs.append(self.goto_tu(tu, ob.remove))
         h = hashlib.md5((ob.id + repr(sorted(defs.items()))).encode()).hexdigest()[:12]
-        out = os.path.join(self.work, f'l_{h}.gb')
+        out = os.path.join(self.work, f'l_{h}_{os.getpid()}.gb')
         rc, o, e, _ = sh(['goto-cc'] + objs + ['-o', out], timeout=300)
         if rc != 0: raise BuildError(f'link {ob.id} failed:\n{(o+e)[-3000:]}')
         return out
@@ -363,7 +363,7 @@ def run_bits(ctx, ob, extra_defs=None):
 
 
 # -------------------------------------------------------------------------------- native replay
-def write_replay(ctx, ob, res, extra_defs=None):
+def write_replay(ctx, ob, res, extra_defs=None, run=True):
     """compile the same harness natively (ASan+UBSan, IEEE doubles) and run it on the solver's inputs.
     returns dict(path, reproduced(bool|None), output)"""
     rdir = os.path.join(VERIF, 'replays'); os.makedirs(rdir, exist_ok=True)
@@ -378,6 +378,8 @@ def write_replay(ctx, ob, res, extra_defs=None):
     info = {'path': path, 'reproduced': None, 'output': ''}
     if res.inputs is None:
         info['output'] = 'no input vector extracted'
+        return info
+    if not run:
         return info
     try:
         exe = ctx.native_link(ob, extra_defs)
@@ -436,6 +438,26 @@ def load_known_findings():
 
 
 # -------------------------------------------------------------------------------- run a property
+_CTX = None
+_KFS = {}
+
+
+def _work(ob):
+    from . import real as realmod
+    ctx, kfs = _CTX, _KFS
+    extra = {}
+    if ob.kf and ob.kf in kfs: extra['LSV_EXCL_' + ob.kf] = 1
+    try:
+        if ob.engine == 'real': r = realmod.run_real(ctx, ob, extra)
+        else: r = run_bits(ctx, ob, extra)
+    except BuildError as x:
+        r = Res(ob, 'error', detail=str(x))
+    except Exception as x:
+        import traceback
+        r = Res(ob, 'error', detail='driver exception: ' + traceback.format_exc()[-1500:])
+    return r
+
+
 def run_property(prop, tier, obligations, meta):
     """obligations: list[Ob]; meta: dict(functions, bounds, stubs, assumptions, outside, rule)"""
     from . import real as realmod
@@ -445,27 +467,45 @@ def run_property(prop, tier, obligations, meta):
     kfs = load_known_findings()
     results = []
     try:
-        def work(ob):
+        # goto objects of the real TUs are built once in the parent; obligations then run in forked worker processes
+        # (the E-REAL rewriter is pure Python: threads would serialise on the interpreter lock)
+        need = {}
+        for ob in obligations:
+            for tu in ob.tus: need[(tu, tuple(sorted(ob.remove)))] = 1
+        build_err = None
+        try:
+            with ThreadPoolExecutor(NCPU) as ex:
+                list(ex.map(lambda k: ctx.goto_tu(k[0], k[1]), need.keys()))
+        except BuildError as x:
+            build_err = str(x)
+        global _CTX, _KFS
+        _CTX, _KFS = ctx, kfs
+        if build_err:
+            results = [Res(ob, 'error', detail=build_err) for ob in obligations]
+        else:
+            import multiprocessing as mp
+            from concurrent.futures import ProcessPoolExecutor
+            with ProcessPoolExecutor(NCPU, mp_context=mp.get_context('fork')) as ex:
+                futs = {ex.submit(_work, ob): ob for ob in obligations}
+                for f in as_completed(futs):
+                    try: r = f.result()
+                    except Exception as x: r = Res(futs[f], 'error', detail='worker failed: %r' % x)
+                    results.append(r)
+                    if os.environ.get('LSV_VERBOSE'):
+                        print(f'  [{r.status:9s}] {r.ob.id} {r.secs:.1f}s {r.detail[:200]}', flush=True)
+        # native replays (parent, sequential; at most 6 per run, the rest are reported on the solver verdict with their inputs)
+        nrep = 0
+        for r in sorted(results, key=lambda r: r.ob.id):
+            if r.status != 'violated': continue
             extra = {}
-            if ob.kf and ob.kf in kfs: extra['LSV_EXCL_' + ob.kf] = 1
-            try:
-                if ob.engine == 'real': r = realmod.run_real(ctx, ob, extra)
-                else: r = run_bits(ctx, ob, extra)
-            except BuildError as x:
-                r = Res(ob, 'error', detail=str(x))
-            except Exception as x:
-                import traceback
-                r = Res(ob, 'error', detail='driver exception: ' + traceback.format_exc()[-1500:])
-            if r.status == 'violated':
-                try: r.replay = write_replay(ctx, ob, r, extra)
+            if r.ob.kf and r.ob.kf in kfs: extra['LSV_EXCL_' + r.ob.kf] = 1
+            if nrep < int(os.environ.get('LSV_MAX_REPLAYS', '6')):
+                try: r.replay = write_replay(ctx, r.ob, r, extra)
                 except Exception as x: r.replay = {'path': '', 'reproduced': None, 'output': 'replay machinery failed: %r' % x}
-            return r
-        with ThreadPoolExecutor(NCPU) as ex:
-            futs = [ex.submit(work, ob) for ob in obligations]
-            for f in as_completed(futs):
-                r = f.result(); results.append(r)
-                if os.environ.get('LSV_VERBOSE'):
-                    print(f'  [{r.status:9s}] {r.ob.id} {r.secs:.1f}s {r.detail[:200]}', flush=True)
+                nrep += 1
+            else:
+                try: r.replay = write_replay(ctx, r.ob, r, extra, run=False)
+                except Exception as x: r.replay = {'path': '', 'reproduced': None, 'output': ''}
         # witnesses for listed known findings: re-run the obligation WITHOUT the exclusion to show the finding is still there
         kf_seen = {}
         for ob in obligations:
